@@ -183,8 +183,12 @@ extern char __start_vxlibbss[] __attribute__((weak)), __stop_vxlibbss[] __attrib
 static size_t vx_lib_dsz(void) { return __start_vxlibdata ? (size_t)(__stop_vxlibdata - __start_vxlibdata) : 0; }
 static size_t vx_lib_bsz(void) { return __start_vxlibbss ? (size_t)(__stop_vxlibbss - __start_vxlibbss) : 0; }
 static size_t vx_lib_size(void) { return vx_lib_dsz() + vx_lib_bsz(); }
-static void vx_lib_save(void *dst) { if (vx_lib_dsz()) memcpy(dst, __start_vxlibdata, vx_lib_dsz()); if (vx_lib_bsz()) memcpy((char *)dst + vx_lib_dsz(), __start_vxlibbss, vx_lib_bsz()); }
-static void vx_lib_restore(const void *src) { if (vx_lib_dsz()) memcpy(__start_vxlibdata, src, vx_lib_dsz()); if (vx_lib_bsz()) memcpy(__start_vxlibbss, (const char *)src + vx_lib_dsz(), vx_lib_bsz()); }
+/* plain byte copies that no sanitizer instruments or intercepts: the regions hold the library's globals WITH the red
+ * zones an AddressSanitizer build puts between them */
+__attribute__((no_sanitize("address", "thread", "undefined"), noinline))
+static void vx_rawcopy(void *d, const void *s, size_t n) { volatile unsigned char *dd = d; const volatile unsigned char *ss = s; while (n--) *dd++ = *ss++; }
+static void vx_lib_save(void *dst) { if (vx_lib_dsz()) vx_rawcopy(dst, __start_vxlibdata, vx_lib_dsz()); if (vx_lib_bsz()) vx_rawcopy((char *)dst + vx_lib_dsz(), __start_vxlibbss, vx_lib_bsz()); }
+static void vx_lib_restore(const void *src) { if (vx_lib_dsz()) vx_rawcopy(__start_vxlibdata, src, vx_lib_dsz()); if (vx_lib_bsz()) vx_rawcopy(__start_vxlibbss, (const char *)src + vx_lib_dsz(), vx_lib_bsz()); }
 static void *vx_lib_pristine;	/* image at program start (taken by vx_init) */
 static void vx_lib_reset(void) { if (vx_lib_pristine) vx_lib_restore(vx_lib_pristine); }
 static int vx_lib_dirty(void)
